@@ -136,6 +136,16 @@ def search(ctx, N, complex_too=True):
             ratio_given, ratio_kind = np.float32(ratio), 'np.float32'
             ratio = float(ratio_given)
         R = Richardson(step_ratio=ratio_given, step=step, order=order, num_terms=T)
+        reconfigured = None
+        if k % 4 == 2:
+            # the instance starts life with ANOTHER configuration, is used, and is then given this one through its public attributes
+            # (what Derivative-like objects may do between calls): the weights must follow the attributes
+            reconfigured = {'step_ratio': (ratio_given if k % 8 == 2 else float(rng.choice([2.0, 1.6, 3.0]))), 'step': int(step % 4 + 1), 'order': int(order % 8 + 1), 'num_terms': T}
+            R = Richardson(**reconfigured)
+            R.rule(length)
+            R(np.cos(np.arange(length * 1, dtype=float)).reshape(length, 1), np.full((length, 1), 0.1) * (1.0 / reconfigured['step_ratio']) ** np.arange(length)[:, None])
+            R.step_ratio, R.step, R.order, R.num_terms = ratio_given, step, order, T
+            ctx.count(1, ('reconfigured-instance',))
         Tu = min(T, length - 1)
         h0 = Fraction(float(rng.uniform(0.05, 0.5)))
         Ls = [Fraction(float(rng.normal())) for _ in range(ncols)]
@@ -154,7 +164,8 @@ def search(ctx, N, complex_too=True):
         key = 'ratio=%r (given as %s),step=%d,order=%d,terms=%d,len=%d' % (ratio, ratio_kind, step, order, T, length)
         rep = {'step_ratio': ratio, 'step': step, 'order': order, 'num_terms': T, 'length': length, 'L': [float(x) for x in Ls],
                'sequence': seq.tolist(), 'output': np.asarray(out).tolist(),
-               'how': 'Richardson(step_ratio, step, order, num_terms)(sequence, steps)' + ('; the same instance was called on a shorter sequence just before' if k % 2 else '')}
+               'how': 'Richardson(step_ratio, step, order, num_terms)(sequence, steps)' + ('; the same instance was called on a shorter sequence just before' if k % 2 else '')
+                      + ('; the instance was built as Richardson(**%r), used once, and then given these values through its attributes' % (reconfigured,) if reconfigured else '')}
         if out.shape[0] != length - Tu or st.shape[0] != out.shape[0]:
             if ctx.violation('count', 'Richardson(%s): %d outputs for length %d with %d terms usable (expected %d)' % (key, out.shape[0], length, Tu, length - Tu), rep):
                 return
